@@ -327,3 +327,64 @@ def chdir(path):
         yield
     finally:
         os.chdir(old)
+
+
+def stale_caches(obj, depth=1, _prefix=""):
+    """Invariant at a quiescent point: every value held by a functools.cached_property of `obj` (and of its attribute objects, to the given
+    depth) equals what the property's function returns now.  Returns [(name, cached, fresh)] for the ones that differ - a cache that a mutating
+    method forgot to invalidate.  Pure observation: nothing is modified."""
+    from functools import cached_property
+    out = []
+    seen = set()
+    for cls in type(obj).__mro__:
+        for name, attr in vars(cls).items():
+            if isinstance(attr, cached_property) and name not in seen and name in getattr(obj, "__dict__", {}):
+                seen.add(name)
+                old = obj.__dict__[name]
+                try:
+                    fresh = attr.func(obj)
+                except Exception as e:  # noqa
+                    out.append((_prefix + name, old, f"recomputation raised {type(e).__name__}: {e}"))
+                    continue
+                same = True
+                try:
+                    if isinstance(old, np.ndarray) or isinstance(fresh, np.ndarray):
+                        a, b = np.asarray(old), np.asarray(fresh)
+                        same = a.shape == b.shape and bool(np.allclose(a, b, rtol=1e-12, atol=1e-12))
+                    elif isinstance(old, (list, tuple, dict, str, int, float, bool, type(None))):
+                        same = old == fresh
+                    else:
+                        same = True   # opaque objects (plans, remappers) are not compared
+                except Exception:  # noqa
+                    same = True
+                if not same:
+                    out.append((_prefix + name, old, fresh))
+    if depth > 0:
+        for k, v in list(getattr(obj, "__dict__", {}).items()):
+            if hasattr(v, "__dict__") and type(v).__module__.startswith("wannierberri"):
+                out += stale_caches(v, depth - 1, _prefix + k + ".")
+    return out
+
+
+def warm_caches(obj, depth=1):
+    """touch every functools.cached_property of obj (and of its wannierberri attribute objects): the state of an object that has been used"""
+    from functools import cached_property
+    for cls in type(obj).__mro__:
+        for name, attr in vars(cls).items():
+            if isinstance(attr, cached_property):
+                try:
+                    getattr(obj, name)
+                except Exception:  # noqa
+                    pass
+    if depth > 0:
+        for v in list(getattr(obj, "__dict__", {}).values()):
+            if hasattr(v, "__dict__") and type(v).__module__.startswith("wannierberri"):
+                warm_caches(v, depth - 1)
+
+
+def assert_no_stale_caches(ctx, obj, after, witness=None):
+    """the invariant above as a check step (counts what it looked at)"""
+    ctx.count("cache_invariant_checked")
+    for name, old, fresh in stale_caches(obj):
+        ctx.violation(f"stale_cached_property_after_{after}:{name}", f"cached {np.shape(old)} {str(old)[:80]} != recomputed {np.shape(fresh) if not isinstance(fresh, str) else ''} "
+                      f"{str(fresh)[:80]}", witness)
